@@ -1,4 +1,5 @@
-import NodisVerif.Proofs.C20ZRem2
+import NodisVerif.Proofs.C20HFloat
+import NodisVerif.Proofs.C20RenameNX
 /-
   C20: the state-changing calls of the embedded API as a type, the call information the driver
   hands to `Feed.emission`, argument side conditions, finding regions, and the main theorem over
@@ -39,6 +40,12 @@ inductive Call
   | zaddLT (k m : Bytes) (sc : F64) | zaddGT (k m : Bytes) (sc : F64)
   | zrem (k : Bytes) (ms : List Bytes) | zremRangeByRank (k : Bytes) (a b : Int)
   | zremRangeByScore (k : Bytes) (a b : F64) (mode : Int)
+  -- two keys
+  | renameNX (a b : Bytes) | smove (src dst m : Bytes) | lpopRpush (a b : Bytes) | rpopLpush (a b : Bytes)
+  | sdiffStore (dst : Bytes) (ks : List Bytes) | sinterStore (dst : Bytes) (ks : List Bytes)
+  | sunionStore (dst : Bytes) (ks : List Bytes)
+  -- floats
+  | zincrBy (k m : Bytes) (d : F64) | hincrByFloat (k f : Bytes) (d : F64)
 
 namespace Call
 
@@ -103,6 +110,15 @@ def run : Call → MState → Int → Api.R
   | zrem k ms, s, now => Api.zrem s now k ms
   | zremRangeByRank k a b, s, now => Api.zremRangeByRank s now k a b
   | zremRangeByScore k a b mode, s, now => Api.zremRangeByScore s now k a b mode
+  | renameNX a b, s, now => Api.renameNX s now a b
+  | smove src dst m, s, now => Api.smove s now src dst m
+  | lpopRpush a b, s, now => Api.rotate true s now a b
+  | rpopLpush a b, s, now => Api.rotate false s now a b
+  | sdiffStore dst ks, s, now => Api.sstore Api.sdiff s now dst ks
+  | sinterStore dst ks, s, now => Api.sstore Api.sinter s now dst ks
+  | sunionStore dst ks, s, now => Api.sstore Api.sunion s now dst ks
+  | zincrBy k m d, s, now => Api.zincrby s now k m d
+  | hincrByFloat k f d, s, now => Api.hincrbyfloat s now k f d
 
 /-- the method name the driver passes to `Feed.emission` -/
 def method : Call → String
@@ -121,6 +137,9 @@ def method : Call → String
   | sadd .. => "SAdd" | srem .. => "SRem" | spop .. => "SPop"
   | zadd .. => "ZAdd" | zaddXX .. => "ZAddXX" | zaddNX .. => "ZAddNX" | zaddLT .. => "ZAddLT" | zaddGT .. => "ZAddGT"
   | zrem .. => "ZRem" | zremRangeByRank .. => "ZRemRangeByRank" | zremRangeByScore .. => "ZRemRangeByScore"
+  | renameNX .. => "RenameNX" | smove .. => "SMove" | lpopRpush .. => "LPopRPush" | rpopLpush .. => "RPopLPush"
+  | sdiffStore .. => "SDiffStore" | sinterStore .. => "SInterStore" | sunionStore .. => "SUnionStore"
+  | zincrBy .. => "ZIncrBy" | hincrByFloat .. => "HIncrByFloat"
 
 /-- the key arguments of the call -/
 def keys : Call → List Bytes
@@ -139,9 +158,17 @@ def keys : Call → List Bytes
   | sadd k _ => [k] | srem k _ => [k] | spop k .. => [k]
   | zadd k .. => [k] | zaddXX k .. => [k] | zaddNX k .. => [k] | zaddLT k .. => [k] | zaddGT k .. => [k]
   | zrem k _ => [k] | zremRangeByRank k .. => [k] | zremRangeByScore k .. => [k]
+  | renameNX a b => [a, b] | smove src dst _ => [src, dst] | lpopRpush a b => [a, b] | rpopLpush a b => [a, b]
+  | sdiffStore dst ks => dst :: ks | sinterStore dst ks => dst :: ks | sunionStore dst ks => dst :: ks
+  | zincrBy k .. => [k] | hincrByFloat k .. => [k]
+
+/-- the plain byte-string arguments in call order (`Feed.emission` needs them for SMOVE) -/
+def bs : Call → List Bytes
+  | smove src dst m => [src, dst, m]
+  | c => c.keys
 
 /-- what the driver hands to `Feed.emission` (the byte-string arguments matter for SMOVE only) -/
-def info (c : Call) : Feed.CallInfo := { method := c.method, bs := c.keys }
+def info (c : Call) : Feed.CallInfo := { method := c.method, bs := c.bs }
 
 /-- argument side conditions: what Go's types guarantee (int64 deadlines and increments, lengths
     below 2^63) and what the command handlers check (no NaN score) -/
@@ -160,6 +187,9 @@ def WF : Call → Prop
   | zaddNX _ m sc => F64.isNaN sc = false ∧ m.length + 8 < 2 ^ 63
   | zaddLT _ m sc => F64.isNaN sc = false ∧ m.length + 8 < 2 ^ 63
   | zaddGT _ m sc => F64.isNaN sc = false ∧ m.length + 8 < 2 ^ 63
+  | smove _ _ m => m.length < 2 ^ 63
+  | zincrBy _ m _ => m.length + 8 < 2 ^ 63
+  | hincrByFloat _ f _ => f.length + 40 < 2 ^ 63
   | _ => True
 
 /-- finding regions: calls that create their key and then fail or have nothing to record
@@ -175,6 +205,8 @@ def Region (K : Bytes → Option (Val × Int)) : Call → Prop
   | zrem k ms => ZRemOnEmpty (fun z => DsZSet.zRem z ms) (K k)
   | zremRangeByRank k a b => ZRemOnEmpty (fun z => DsZSet.zRemRangeByRank z a b) (K k)
   | zremRangeByScore k a b mode => ZRemOnEmpty (fun z => DsZSet.zRemRangeByScore z a b (mode % 4).toNat) (K k)
+  | zincrBy k m d => ZIncrByNaN (K k) m d
+  | hincrByFloat k _ d => HIncrByFloatCreatesAndFails (K k) d
   | _ => False
 
 end Call
@@ -413,6 +445,33 @@ theorem call_main (c : Call) (hwf : c.WF) (hs : Same now p r) (hl : p.listeners 
     exact ⟨h.1, h.2.1⟩
   | zremRangeByScore k a b mode =>
     have h := zremRangeByScore_main hs hl hfd (Call.zremRangeByScore k a b mode).info rfl k a b mode hreg
+    exact ⟨h.1, h.2.1⟩
+  | renameNX a b =>
+    have h := renameNX_main hs hl hfd (Call.renameNX a b).info rfl a b
+    exact ⟨h.1, h.2.1⟩
+  | smove src dst m =>
+    have h := smove_main hs hl hfd (Call.smove src dst m).info rfl src dst m rfl hwf
+    exact ⟨h.1, h.2.1⟩
+  | lpopRpush a b =>
+    have h := rotate_main true hs hl hfd (Call.lpopRpush a b).info rfl a b
+    exact ⟨h.1, h.2.1⟩
+  | rpopLpush a b =>
+    have h := rotate_main false hs hl hfd (Call.rpopLpush a b).info rfl a b
+    exact ⟨h.1, h.2.1⟩
+  | sdiffStore dst ks =>
+    have h := sstore_main Api.sdiff sdiff_reader hs hl hfd (Call.sdiffStore dst ks).info rfl dst ks
+    exact ⟨h.1, h.2.1⟩
+  | sinterStore dst ks =>
+    have h := sstore_main Api.sinter sinter_reader hs hl hfd (Call.sinterStore dst ks).info rfl dst ks
+    exact ⟨h.1, h.2.1⟩
+  | sunionStore dst ks =>
+    have h := sstore_main Api.sunion sunion_reader hs hl hfd (Call.sunionStore dst ks).info rfl dst ks
+    exact ⟨h.1, h.2.1⟩
+  | zincrBy k m d =>
+    have h := zincrby_main hs hl hfd (Call.zincrBy k m d).info rfl k m d hwf hreg
+    exact ⟨h.1, h.2.1⟩
+  | hincrByFloat k f d =>
+    have h := hincrbyfloat_main hs hl hfd (Call.hincrByFloat k f d).info rfl k f d hwf hreg
     exact ⟨h.1, h.2.1⟩
 
 end NodisVerif.Proofs.C20
